@@ -249,7 +249,7 @@ func (s *memStream) Recv() (*pb.SessionRequest, error) {
 }
 func (s *memStream) Send(r *pb.SessionResponse) error { s.sent = append(s.sent, r); return nil }
 
-var words = []string{"a", " a", "a ", "svc", "prod", "tenant", "é世", "A-1", "x y", "_", "IK", "0", "user@example.com", "p.q", "100%", "%s", "%d%"}
+var words = []string{"a", " a", "a ", "svc", "prod", "tenant", "é世", "A-1", "x y", "_", "IK", "0", "user@example.com", "p.q", "100%", "%s", "%d%", "t\x01", "\x7f", "q\"\\", "\v\a"}
 
 func drawName(t *rapid.T, label string) string {
 	n := rapid.IntRange(1, 2).Draw(t, label+"N")
